@@ -840,6 +840,11 @@ M('C17', 'UniformMPS.from_hdf5 does not restore unit_cell_width (original defect
             obj.unit_cell_width = len(obj.sites)
 """, "", 'HDF5-new-typestate')
 
+M('C17', "'' accepted as a simple dict key (original defect)", HIO,
+  "and name not in ('', '.')", "and name != '.'", 'HDF5-path-component')
+M('C17', "simple-key predicate spelled with two comparisons (equivalent)", HIO,
+  "and name not in ('', '.')", "and name != '' and name != '.'", None, expect='silent')
+
 # ---------------------------------------------------------------- C16 / C19
 M('C16', 'GMRES restart: relative residual norm used for normalisation (round-3 seed b)', KRY,
   """        self.total_error.append([npc.norm(self.rs[-1]) / self.b_norm])
